@@ -72,6 +72,11 @@ def structural_trees():
     t["symlink_retained_outside"] = (["d1", "d2"], ["-S"], [
         {"p": "d1/L", "k": "sym", "to": "../out/T"}, {"p": "out/T", "k": "file", "c": lit("S")},
         {"p": "d2/sub/B", "k": "file", "c": lit("S")}, {"p": "d2/C", "k": "file", "c": lit("S")}])
+    # overlapping / repeated input paths given on standard input, every path counted separately (--match-links):
+    # a file reached twice is still ONE path - it may not be reported as a duplicate of itself
+    t["stdin_overlap"] = (["r1", "r1/d", "r1"], ["-H"], [
+        {"p": "r1/d/a", "k": "file", "c": lit("X")}, {"p": "r1/d/b", "k": "file", "c": lit("X")},
+        {"p": "r1/d/u", "k": "file", "c": lit("unique-1")}, {"p": "r1/e/v", "k": "file", "c": lit("unique-2")}])
     # a DROPPED symlink whose (relative) target lies outside the scanned roots and is therefore not moved along
     t["symlink_dropped_outside"] = (["d1", "d2"], ["-S"], [
         {"p": "d1/A", "k": "file", "c": lit("S")}, {"p": "d2/x/L", "k": "sym", "to": "../../out/T"},
@@ -279,7 +284,8 @@ def evaluate(case):
         genv = dict(tzenv or {})
         if case["tree"] == "s:prefix_window":
             genv["FCLONES_VERIF_DISK_KIND"] = "unknown"
-        report = D.make_report(sc, ["--min", "0"] + case["gargs"], case["roots"], fmt=case["fmt"], env_extra=genv or None)
+        report = D.make_report(sc, ["--min", "0"] + case["gargs"], case["roots"], fmt=case["fmt"], env_extra=genv or None,
+                               stdin_roots=case["tree"].endswith("stdin_overlap"))
         rep = D.report_groups(report)
         members = set()
         for g in rep.groups:
